@@ -946,3 +946,12 @@ func (c *Cache[K, V]) VerifNotifierState() (wake bool, pending []bool, staged []
 	}
 	return
 }
+
+// VerifStats drives a real striped statistics block outside a cache.
+type VerifStats struct{ s *stats }
+
+func NewVerifStats(parallelism int) *VerifStats { return &VerifStats{s: newStats(parallelism)} }
+func (v *VerifStats) Stripes() int              { return len(v.s.stripes) }
+func (v *VerifStats) RecordHit(id uint64)       { v.s.recordHit(id) }
+func (v *VerifStats) Aggregate() (hits int64)   { hits, _, _, _ = v.s.aggregate(); return }
+func (v *VerifStats) Stripe(i int) int64        { return v.s.stripes[i].hits.Load() }
